@@ -1322,7 +1322,7 @@ def search(ctx, table=None):
         rows, mems, before, outcome, after, ca = run_cell(cell, entry)
         oracle_cell(ctx, cell, entry, outcome, before, after)
     rng = ctx.rng
-    for h in range(1500):
+    for h in range(400):
         model = rng.choice(HIST_MODELS)
         placed = seed_history_db(rng, model)
         for s in range(10):
